@@ -87,9 +87,7 @@ func (f getterFunc) Get(u string) (map[string][]string, []byte, error) { return 
 func TestC20Real(t *testing.T) {
 	gen.Direct(t, "many-fast-failures-in-a-process-of-its-own", func(t *testing.T) {
 		for i, to := range []string{"300ms", "3s"} {
-			if !gen.ShardOwns(i) {
-				continue
-			}
+			_ = i
 			txt, err := c20StackChild(to)
 			gen.Eval()
 			desc := fmt.Sprintf("real clock, own process with a 32 MiB stack limit: timeout=%s maxRetryDelay=0 and a wrapped getter that fails at once, for ever", to)
